@@ -25,7 +25,8 @@ pub fn general_scope(tier: &str) -> TreeScope {
   ));
   leaves.extend(trees::default_leaves(&["a\nb"], &[None, Some(K_A), Some(K_C)]));
   let mut small: Vec<Term> = Vec::new();
-  for t in ["", "a", "\n", "a\nb", "a;b\n"] {
+  // ("\nab": the only line break is the first byte, the last line is unterminated)
+  for t in ["", "a", "\n", "a\nb", "a;b\n", "\nab"] {
     small.push(Term::raw(t));
   }
   for t in ["", "a", "\n", "a\nb", "a;b"] {
@@ -69,7 +70,8 @@ pub fn provenance_scope(tier: &str) -> TreeScope {
   let mut leaves = trees::raw_leaves(&texts[..6]);
   leaves.extend(trees::orig_leaves(texts));
   // (the last three: TAB and CR inside the run that follows a ';', '{' or '}')
-  for t in ["{a}", "a ;b", " a\n", ";\n;", "a\n\n", "a;\tb", "{\ta;}\t\tb", "a;\r\tb;\t"] {
+  // (... and lines made only of blanks)
+  for t in ["{a}", "a ;b", " a\n", ";\n;", "a\n\n", "a;\tb", "{\ta;}\t\tb", "a;\r\tb;\t", "a;\n  \nb", "\t\n \na"] {
     leaves.push(Term::orig(t, &format!("g{}", t.len() * 7 + t.as_bytes()[0] as usize)));
   }
   let mut small: Vec<Term> = Vec::new();
